@@ -8,6 +8,8 @@
 (*           check_tx}                                                     *)
 (*          sign / finalize / to_v0 / to_v2 / combine / request_signatures *)
 (*          (shared = mutable objects the result shares with an argument)  *)
+(*  view    {psbt, view_maps[], object_maps[], view_tx, object_tx,         *)
+(*           view_lock, object_lock}      PsbtView against Psbt            *)
 (***************************************************************************)
 EXTENDS PsbtRoles, EvBase
 
@@ -27,6 +29,9 @@ Check(e) ==
          /\ e.args_after = e.args_before                               \* the PSBTs handed in are left as they were
          /\ e.shared = 0                                                \* and the result is a fresh object
          /\ (e.check_tx => TxOfMaps(M(e.after)) = TxOfMaps(M(e.before)))  \* signing, finalizing, converting: the unsigned transaction stays
+    \* the streamed read-only view and the parsed object give one answer: the same maps, the same transaction (re-derived here too)
+    [] e.op = "view" -> /\ e.view_maps = e.object_maps /\ e.view_tx = e.object_tx /\ e.view_lock = e.object_lock
+                        /\ ToHex(SerTx(TxOfMaps(M(e.psbt)), FALSE)) = e.view_tx
 EventOK == i > 0 => Check(Trace[i])
 Diag == i > 0 => PrintT(<<"DIAG", i, <<Trace[i].op,
            CASE Trace[i].op = "combine" -> LET ps == Ms(Trace[i].operands) IN
